@@ -12,7 +12,7 @@ EXPLANATION = ("TermFlow + CFG path rules on Bump::reset (callees inlined): the 
 RULE = "rule instance = (rule, required effect or frame condition); distinct by (rule, effect)"
 
 
-def run(ctx, config='rel-all'):
+def run(ctx, config='rel-all', shares=True):
     A = arena.analyse(ctx, config)
     db = ctx.db(config)
     val = A.get('reset')
@@ -99,6 +99,8 @@ def run(ctx, config='rel-all'):
     # is strictly larger than finger - data (shared with C18.O6)
     from . import c18
     c18.check_exact_refusal(ctx, A, config, 'R4')
+    if not shares:
+        return finish_core(ctx, A, db, res, fn)
     # ---- R5 'keeps its limit ... for any history after it': the counter reset() re-establishes is the usable size of the kept
     # chunk (J4, shared with C08.O1) -- a wrong constant makes the arena refuse or exceed its limit after a reset
     from .. import runner
@@ -108,7 +110,11 @@ def run(ctx, config='rel-all'):
         c08.check_j4(ctx, A, db, fsz, 'R5')
     # ---- R6 'exactly the other chunks were released': the releaser reset() calls gives each chunk back with the pair recorded
     # in that chunk's own footer, stops at the sentinel and touches nothing after freeing it (the obligations of C03)
-    c03.run(runner.Sub(ctx, 'R6', 'C03'), config)
+    c03.run(runner.Sub(ctx, 'R6', 'C03'), config, shares=False)
+    finish_core(ctx, A, db, res, fn)
+
+
+def finish_core(ctx, A, db, res, fn):
     # ---- R3 frame
     for e in res.events:
         if e.kind == 'store':
@@ -137,6 +143,7 @@ def run(ctx, config='rel-all'):
         else:
             ctx.violation('R3', w, 'store(Bump.allocation_limit)', 'allocation_limit is written outside constructors and set_allocation_limit')
     ctx.floor('R3', len(writers), 3, 'writers of allocation_limit (set_allocation_limit + constructor aggregates)')
+
 
 
 def early_edge_is_return_only(g, early_edges, block):
